@@ -91,7 +91,7 @@ func woundLits(p *core.Prog) []woundLit {
 				return
 			}
 			// skip parameter spills
-			if a.Comment != "complit" && a.Comment != "new" {
+			if !isLitAlloc(a) {
 				return
 			}
 			if v, ok := litField(a, "Kind"); ok {
@@ -426,7 +426,13 @@ func ruleHealthyVerdict(c *core.Ctx, kinds map[string]int64, emptyOnlyBeyond boo
 			}
 		} else {
 			for _, rs := range core.Returns(fn, 0) {
-				for _, o := range core.Origins(rs.Val) {
+				os := core.Origins(rs.Val)
+				// a value built in place in a result temporary (an expanded helper's `__r = Wound{...}; return __r`):
+				// what is returned is the load of that cell
+				if len(rs.Ret.Results) > 0 && rs.Ret.Results[0] != rs.Val {
+					os = append(os, rs.Ret.Results[0])
+				}
+				for _, o := range os {
 					if ld, ok := o.(*ssa.UnOp); ok && ld.Op == token.MUL {
 						o = ld.X
 					}
